@@ -76,7 +76,9 @@ def wrap(body_text, reg, odd, defs_first, extra_defs=""):
     pre = (".link 1000\n" if reg == "first" else "")
     pre += ("x = 4\n" + extra_defs if defs_first else "")
     pre += "bse: nop\n7$:\n" + (".byte 7\n" if odd else "")
-    post = ".byte 77\n" + ("" if defs_first else "x = 4\n" + extra_defs) + (".link 1000\n" if reg == "last" else "")
+    # (behind the body another region with a local label of the same name: a body that is carried out late - its count is
+    # known only at the end - still belongs to the region it stands in)
+    post = ".byte 77\n.even\ntail: nop\n7$: nop\n" + ("" if defs_first else "x = 4\n" + extra_defs) + (".link 1000\n" if reg == "last" else "")
     return pre + body_text + "\n" + post
 
 
